@@ -61,10 +61,12 @@ def st_header(draw, dw, allow_short=False):
     nf = draw(st.integers(1, 6))
     fields = []
     bit = 0
+    # field names in an order unrelated to the fields' positions (the header code walks the fields by name)
+    order = draw(st.permutations(list(range(nf))))
     for i in range(nf):
         bit += draw(st.sampled_from([0, 0, 0, 1, 3, 8]))
         width = draw(st.one_of(st.sampled_from([1, 4, 8, 16, 32, 48]), st.integers(1, 64)))
-        fields.append(["f%d" % i, bit // 8, bit % 8, width])
+        fields.append(["f%d" % order[i], bit // 8, bit % 8, width])
         bit += width
     min_len = (bit + 7) // 8
     length = min_len + draw(st.sampled_from([0, 0, 1, 2, 5]))
